@@ -447,13 +447,34 @@ def rule_store_contract(ctx: Ctx, out: Collector) -> None:
                 good = o[0] == 'value' and o[1][0] == 'visible' and (o[1][1] == 7 or not value_is_param)
                 if not good:
                     problems.append(f'from {pres}{":" + vc if vc else ""}: {o[1]}')
+        if value_is_param:
+            # what is stored is the published object itself, whatever kind of value a node returns (the manager hands the same
+            # object to the artifact store: a copy, a conversion or a drained iterator makes the two differ)
+            from ..absint import AOneShot
+            kinds = {'an object': lambda: AObj(('ext', 'Value'), {}, tag='node-value'), 'a list': lambda: [1, 2],
+                     'a dictionary': lambda: {'a': 1}, 'a one-shot iterator': lambda: AOneShot(lambda: [1, 2]), 'None': lambda: None,
+                     'an exception object': lambda: AObj(('ext', 'builtins.ValueError'), {'args': ()}, tag='exc')}
+            for label, make in kinds.items():
+                def run_v(oracle: Oracle, m=m, fld=fld, make=make):
+                    storage = make_storage(p, st, {fld: {}})
+                    v_ = make()
+                    Interp(p, oracle).call_unit(m, ['K', v_], {}, storage)
+                    got = storage.attrs[fld].attrs['data'].get('K')
+                    consumed = isinstance(v_, AOneShot) and v_._items is not None
+                    return got is v_, consumed
+                for o in enumerate_outcomes(run_v):
+                    if o[0] != 'value' or o[1][0] is not True:
+                        problems.append(f'{label} is not stored as it is ({o[1]})')
+                    elif o[1][1]:
+                        problems.append(f'{label} is consumed by the store')
         cons = f'{m.module.name}::{m.qualname}::publishing makes the entry visible with the published value'
         if not problems:
             out.ok('ST-1', cons, p.loc(m, m.node), f'{fld}: visible with the new value from every prior state (absent / hidden / visible)')
         else:
             out.bad('ST-1', cons, p.loc(m, m.node),
                     f'publishing into {fld} does not make the entry visible with the published value ({"; ".join(problems[:3])}): '
-                    f'a result of a re-iteration stays hidden and its waiters never see it')
+                    f'a result of a re-iteration stays hidden and its waiters never see it - or the consumers receive something else '
+                    f'than the value the node returned and the artifact store is given')
     if n == 0:
         raise AnalysisError('no publisher method found in the storage class (ST-1 anchor vanished)')
 
@@ -1035,11 +1056,9 @@ def rule_case_dag_worlds(ctx: Ctx, out: Collector) -> None:
             mgr.attrs['dag'].attrs['graph'] = graph
             mgr.attrs['dag'].attrs['input_node'] = 'I'
             mgr.attrs['dag'].attrs['output_node'] = 'N'
-            lock = AObj(('ext', 'LockManager'), {}, tag='lock-manager')
+            from .common import lock_world
+            lock, lock_stubs = lock_world(ctx, lambda kind, name: None)
             ext = {}
-            for nm in ('unlock_condition', 'unlock_event', 'wait_for_condition', 'wait_for_event'):
-                ext[f'world.lock.{nm}'] = lambda a, k: None
-                lock.attrs[nm] = AExt(f'world.lock.{nm}')
             for name, (ann, default) in mgr_cls.fields.items():
                 if 'lock' in name:
                     mgr.attrs[name] = lock
@@ -1050,7 +1069,7 @@ def rule_case_dag_worlds(ctx: Ctx, out: Collector) -> None:
                 sub = k.get('dag', a[0] if a else None)
                 ran.append(sub)
                 return None
-            interp = Interp(p, oracle, stubs={u.fid: run_dag_stub for u in launchers}, ext_stubs=ext)
+            interp = Interp(p, oracle, stubs={**{u.fid: run_dag_stub for u in launchers}, **lock_stubs}, ext_stubs=ext)
             kwargs = {}
             for pn in runner.params()[1:]:
                 t_ = FuncEnv.of(p, runner).name_type(pn)
